@@ -17,6 +17,7 @@ code -> spec: random vectors with many parameters off the baseline are executed,
 against spec/trace/Trace_Dispatch.tla (the observation must be a terminal state of the machine started with the
 recorded vector; the invariants are evaluated on the recorded observations)."""
 import json
+import logging
 import os
 import random
 import shutil
@@ -103,7 +104,7 @@ def obs_class(o, ref):
     """what is compared with the spec"""
     c = {'raised': o['raised'], 'st': o['status'], 'ct': o['ctype'], 'kind': o['kind'], 'skel': o['skel'], 'code': o['code'],
          'size': o['size'], 'echo': sorted(set((s, p) for s, p in o['echo'])), 'bad': sorted(bad_flags(o, ref))}
-    if 'xml' in c['bad'] and ref is not None:       # classify by what the document is once the characters are dropped
+    if o['skel'] == 'unparseable' and ref is not None:   # classified as the document it was meant to be
         c['skel'], c['code'] = ref['skel'], ref['code']
     return c
 
@@ -123,21 +124,22 @@ def matches(c, resp):
     return set(c['bad']) == {str(b) for b in resp['bad']}
 
 
-def signature(op, c, allowed):
-    """which invariant fails / what differs, for known_findings matching"""
+def signature(op, p, c):
+    """which invariant fails / what differs - matched against known_findings.json"""
     svc = op.split('_')[0]
     bad = set(c['bad'])
+    text = sorted(k for k, v in p.items() if v in ('hostile', 'unicode', 'ctrl', 'latin1', 'opt_hostile', 'opt_unicode', 'opt_ctrl', 'word'))
+    via = 'host-header' if set(text) & {'h_host', 'h_proto'} else ('+'.join(text) or 'none')
     if 'response' in bad:
         return {'invariant': 'AlwaysResponds', 'what': 'raised' if c['raised'] == 'yes' else 'malformed-response', 'service': svc}
     if 'header' in bad:
         return {'invariant': 'AlwaysResponds', 'what': 'request-text-breaks-response-header', 'service': svc}
-    if 'image' in bad:
-        return {'invariant': 'ImageOK', 'what': 'image-bytes-are-not-of-the-declared-type', 'service': svc}
     if 'leak' in bad:
         return {'invariant': 'NoLeak', 'what': 'traceback-or-server-path', 'service': svc}
+    if 'image' in bad:
+        return {'invariant': 'ImageOK', 'what': 'image-bytes-are-not-of-the-declared-type', 'service': svc}
     if 'markup' in bad:
-        via = sorted({s for s, pos in c['echo']}) or ['?']
-        return {'invariant': 'MarkupFixed', 'what': 'structure-depends-on-request-text', 'document': c['skel'] if c['skel'] != 'unparseable' else op}
+        return {'invariant': 'MarkupFixed', 'what': 'structure-depends-on-request-text', 'via': via}
     if 'xml' in bad:
         return {'invariant': 'MarkupFixed', 'what': 'xml-not-well-formed-control-characters'}
     return {'invariant': 'conformance', 'what': 'response-class-not-allowed-by-spec', 'operation': op,
@@ -177,10 +179,12 @@ class Checker(object):
     def __init__(self, ctx):
         self.ctx = ctx
         self.dir = tempfile.mkdtemp(prefix='c18-', dir=ctx.sub('world'))
+        logging.disable(logging.CRITICAL)      # the catch-all logs every internal error with its traceback
         self.world = W.World(self.dir)
         self.nreq = 0
 
     def close(self):
+        logging.disable(logging.NOTSET)
         self.world.close()
         shutil.rmtree(self.dir, ignore_errors=True)
 
@@ -198,17 +202,16 @@ class Checker(object):
             if record is not None:
                 record.append({'op': op, 'p': p, 'obs': c})
             ctx.count(('vec', pkey(op, p), c['st'], c['ct'], c['skel'], c['code'], tuple(c['bad'])))
-            if allowed is None:
+            ok = allowed is None or any(matches(c, r) for r in allowed)
+            if ok and not c['bad']:
                 continue
-            if any(matches(c, r) for r in allowed):
-                continue
-            sig = signature(op, c, allowed)
+            sig = signature(op, p, c)
             what = '%s %s: %s -> %s %s %s %s %s size=%s echo=%s %s' % (
                 op, {k: v for k, v in p.items() if v != 'absent'}, sig['what'], c['st'], c['ct'], c['kind'], c['skel'], c['code'],
                 c['size'], c['echo'], '; '.join(o['problems'] + o['markup'] + o['leak'])[:300])
             ctx.violation(sig, what, {'op': op, 'p': p, 'mode': 'benign' if i == 0 else 'hostile', 'seed': seed0 + i,
                                       'request': o['request'], 'observed': c,
-                                      'allowed': [tla_py(r) for r in allowed][:6]})
+                                      'allowed': [tla_py(r) for r in (allowed or [])][:6]})
         return out
 
 
@@ -222,31 +225,40 @@ def tla_py(v):
     return v if isinstance(v, (int, bool)) else str(v)
 
 
-def attack(ctx, chk, defect, expect_real):
-    """TLC counterexample for a defect variant of the model, replayed on the real application."""
-    r = model_check(ctx, 'attack-' + defect, None, 1, defects=[defect], invariants=['AlwaysResponds', 'MarkupFixed', 'ImageOK'], timeout=600)
+ATTACKS = {   # defect variant -> (operations, MaxDev) where TLC finds its counterexample
+    'raw_host': (['wms_caps', 'tms_caps', 'rest_caps'], 1), 'raw_header': (['wms_mapx', 'wms_fi'], 2), 'xml_ctrl': (['wms_map', 'tms_tile'], 1),
+    'legend_png': (['wms_legend'], 1), 'no_escape': (['wms_map', 'wmts_tile'], 1), 'no_catch_all': (['wms_map'], 1)}
+
+
+def attack(ctx, chk, defect):
+    """TLC counterexample for a one-defect variant of the model, replayed on the real application."""
+    ops, k = ATTACKS[defect]
+    r = model_check(ctx, 'attack-' + defect, ops, k, defects=[defect], invariants=['AlwaysResponds', 'MarkupFixed', 'ImageOK'],
+                    timeout=900)
     if not r.violated or not r.trace:
-        raise tlc.MachineryError('the %s variant of Dispatch.tla violates nothing - invariants are vacuous? %r' % (defect, r))
+        raise tlc.MachineryError('the %s variant of Dispatch.tla violates nothing - vacuous invariants? %r' % (defect, r))
     st = r.trace[0][1]
-    op, p = str(st['req']['op']), {str(k): str(v) for k, v in st['req']['p'].items()}
+    op, p = str(st['req']['op']), {str(k_): str(v) for k_, v in st['req']['p'].items()}
     final = r.trace[-1][1]['resp']
-    ctx.log('model variant %s violates %s on %s %s' % (defect, r.violated, op, {k: v for k, v in p.items() if v != 'absent' and v != 'valid'}))
     ref = execute(chk.world, op, p, 'benign', 0)
     hit = None
     for i in range(1, 13):
         o = execute(chk.world, op, p, 'hostile', 7000 + i)
         c = obs_class(o, ref)
+        chk.nreq += 1
         ctx.count(('attack', defect, i))
-        if matches(c, final) and c['bad']:
+        if matches(c, final):
             hit = (o, c)
             break
     ctx.cov['replayed_behaviours'] += 1
     ctx.cov['replayed_steps'] += len(r.trace)
+    ctx.log('model variant {%s} violates %s on %s %s: %s on the real application' % (
+        defect, r.violated, op, {k_: v for k_, v in p.items() if v not in ('absent', 'valid')},
+        'REPRODUCED' if hit else 'not reproduced'))
     if hit:
         o, c = hit
-        sig = signature(op, c, None)
-        ctx.violation(sig, 'counterexample of model variant %s reproduced on the real application: %s %s -> %s %s %s; %s' % (
-            defect, op, {k: v for k, v in p.items() if v != 'absent'}, c['st'], c['ct'], c['bad'],
+        ctx.violation(signature(op, p, c), 'counterexample of model variant {%s} (%s) reproduced on the real application: %s %s -> %s %s %s; %s' % (
+            defect, r.violated, op, {k_: v for k_, v in p.items() if v != 'absent'}, c['st'], c['ct'], c['bad'],
             '; '.join(o['problems'] + o['markup'])[:300]),
             {'op': op, 'p': p, 'mode': 'hostile', 'seed': 7000, 'request': o['request'], 'observed': c, 'variant': defect})
     return r, hit is not None
@@ -263,7 +275,8 @@ def random_vector(rng, catalogue, op):
 
 
 def validate_traces(ctx, events, name='trace'):
-    """events: [{'op', 'p', 'obs'}] -> (TLC result, indices of rejected events)"""
+    """events: [{'op', 'p', 'obs'}] -> (TLC results, indices rejected by every model variant, indices whose observation
+    violates the property)"""
     d = ctx.sub(name)
     tf = os.path.join(d, 'batch.json')
     batch = []
@@ -274,16 +287,20 @@ def validate_traces(ctx, events, name='trace'):
                               'code': o['code'], 'size': o['size'], 'echo': [[s, p] for s, p in o['echo']], 'bad': list(o['bad'])}})
     with open(tf, 'w') as f:
         json.dump(batch, f)
-    mp, cp = tlc.write_mc(d, 'Trace_Dispatch', 'MC_Trace', dict(Defects=set(), MaxDev=0, Ops=set()),
-                          spec='TraceSpec', post='TraceAccepted')
-    r = tlc.run(mp, cp, d, workers=1, coverage=False, env={'TRACE_FILE': tf}, timeout=3000)
-    pr = tlc.find_prints(r.out, 'accepted')
-    if not pr:
-        raise tlc.MachineryError('trace validation: no verdict from TLC\n' + r.out[-2500:])
-    acc = pr[-1][1]
-    accepted = {int(x) for x in acc}
+    accepted, obsbad, results = set(), set(), []
+    for vname, defects in (('repaired', ()), ('asfound', AS_FOUND)):
+        dv = ctx.sub(name + '-' + vname)
+        mp, cp = tlc.write_mc(dv, 'Trace_Dispatch', 'MC_Trace', dict(Defects=set(defects), MaxDev=0, Ops=set()),
+                              spec='TraceSpec', post='TraceAccepted')
+        r = tlc.run(mp, cp, dv, workers=1, coverage=False, env={'TRACE_FILE': tf}, timeout=3000)
+        pa, pb = tlc.find_prints(r.out, 'accepted'), tlc.find_prints(r.out, 'obsbad')
+        if not pa or not pb:
+            raise tlc.MachineryError('trace validation: no verdict from TLC\n' + r.out[-2500:])
+        accepted |= {int(x) for x in pa[-1][1]}
+        obsbad |= {int(x) for x in pb[-1][1]}
+        results.append(r)
     rejected = [i for i in range(len(events)) if (i + 1) not in accepted]
-    return r, rejected
+    return results, rejected, sorted(i - 1 for i in obsbad)
 
 
 def catalogue_from_tlc(ctx):
@@ -296,6 +313,22 @@ def catalogue_from_tlc(ctx):
     if not pr:
         raise tlc.MachineryError('no catalogue from TLC: ' + r.out[-1500:])
     return {str(op): {str(k): [str(c) for c in v] for k, v in dom.items()} for op, dom in pr[-1][1].items()}
+
+
+def tables(ctx, name, ops, maxdev, timeout=2400):
+    """repaired variant: model-checked with all invariants; as-found variant: its terminal states (the property fails
+    on it, see attack()).  -> merged table {(op, params): (op, params, [response classes])}, TLC result of the repaired run"""
+    r = model_check(ctx, name, ops, maxdev, emit=True, timeout=timeout)
+    if not r.ok:
+        raise tlc.MachineryError('Dispatch.tla (repaired variant, %s): %r\n%s' % (name, r, r.out[-1500:]))
+    vacuity_guard('Dispatch ' + name, r)
+    rf = model_check(ctx, name + '-asfound', ops, maxdev, defects=AS_FOUND, emit=True, invariants=['TypeOK', 'NoStuck'], timeout=timeout)
+    if not rf.ok:
+        raise tlc.MachineryError('Dispatch.tla (as-found variant, %s): %r\n%s' % (name, rf, rf.out[-1500:]))
+    table = cases_of(r)
+    for key, (op, p, resps) in cases_of(rf).items():
+        table.setdefault(key, (op, p, []))[2].extend(resps)
+    return table, r, rf
 
 
 def run(ctx):
@@ -314,82 +347,82 @@ def run(ctx):
                 except W.Unknown as ex:
                     raise tlc.MachineryError('catalogue class without concretisation: %s' % ex)
 
-    # (M) the model: the repaired code satisfies the property for all vectors with <= MaxDev deviations
-    r1 = model_check(ctx, 'k1', None, 1, emit=True)
-    if not r1.ok:
-        raise tlc.MachineryError('Dispatch.tla (repaired variant, MaxDev=1): %r\n%s' % (r1, r1.out[-1500:]))
-    vacuity_guard('Dispatch k1', r1)
-    ctx.add_tlc('Dispatch MaxDev=1 all operations', r1)
-    table = cases_of(r1)
-    deep_ops = None if thorough else ['wms_map', 'wms_fi', 'wms_legend', 'wmts_tile', 'rest_tile', 'tms_tile', 'kml_doc', 'demo_caps']
-    r2 = model_check(ctx, 'k2', deep_ops, 2, emit=True, timeout=2400)
-    if not r2.ok:
-        raise tlc.MachineryError('Dispatch.tla (repaired variant, MaxDev=2): %r\n%s' % (r2, r2.out[-1500:]))
-    ctx.add_tlc('Dispatch MaxDev=2 %s' % ('all operations' if thorough else ','.join(deep_ops)), r2)
-    table2 = cases_of(r2)
+    # (M) the model: the repaired variant satisfies the property for all vectors with <= MaxDev deviations
+    table, r1, r1f = tables(ctx, 'k1', None, 1)
+    ctx.add_tlc('Dispatch MaxDev=1, all operations', r1)
+    ctx.add_tlc('Dispatch as found MaxDev=1, all operations (terminal states only)', r1f)
+    deep_ops = None if thorough else ['wms_map', 'wms_mapx', 'wms_fi', 'wms_legend', 'wmts_tile', 'rest_tile', 'tms_tile', 'kml_doc',
+                                      'demo_caps', 'wms_caps']
+    table2, r2, r2f = tables(ctx, 'k2', deep_ops, 2)
+    ctx.add_tlc('Dispatch MaxDev=2, %s' % ('all operations' if thorough else ','.join(deep_ops)), r2)
+    ctx.add_tlc('Dispatch as found MaxDev=2 (terminal states only)', r2f)
     if thorough:
-        r3 = model_check(ctx, 'k3', ['wms_map', 'wms_legend', 'wmts_tile', 'tms_tile'], 3, timeout=3000)
+        r3 = model_check(ctx, 'k3', ['wms_mapx', 'wms_legend', 'wmts_tile', 'tms_tile', 'rest_fi', 'kml_doc'], 3, timeout=3000)
         if not r3.ok:
             raise tlc.MachineryError('Dispatch.tla (repaired variant, MaxDev=3): %r\n%s' % (r3, r3.out[-1500:]))
-        ctx.add_tlc('Dispatch MaxDev=3 wms_map,wms_legend,wmts_tile,tms_tile', r3)
-    # the as-found variant of the model violates the property (the model of the code has the defects) ...
-    rf = model_check(ctx, 'asfound', None, 1, defects=AS_FOUND, invariants=['AlwaysResponds', 'MarkupFixed', 'ImageOK'])
-    if not rf.violated:
-        raise tlc.MachineryError('the as-found variant of Dispatch.tla does not violate the property: %r' % rf)
-    ctx.log('model: repaired variant holds (%d + %d states); as-found variant violates %s  [%.0fs]' % (
-        r1.distinct, r2.distinct, rf.violated, time.time() - t0))
+        ctx.add_tlc('Dispatch MaxDev=3, wms_mapx,wms_legend,wmts_tile,tms_tile,rest_fi,kml_doc', r3)
+    ctx.log('model: repaired variant satisfies the property on %d + %d vectors  [%.0fs]' % (len(table), len(table2), time.time() - t0))
 
     chk = Checker(ctx)
     try:
+        # counterexamples of the one-defect variants of the model, on the real application
+        for dfc in AS_FOUND + HYPOTHETICAL:
+            attack(ctx, chk, dfc)
+
         # (R) spec -> code: every printed vector on the real application
-        nh = 4 if thorough else 2
+        nh = 5 if thorough else 2
         t1 = time.time()
         for key, (op, p, allowed) in sorted(table.items()):
             chk.run_vector(op, p, allowed, nh, 100)
             ctx.cov['replayed_behaviours'] += 1
             ctx.cov['replayed_steps'] += nh + 1
-        ctx.log('replayed %d vectors (MaxDev=1) with %d requests  [%.0fs]' % (len(table), chk.nreq, time.time() - t1))
+        ctx.log('replayed %d vectors (MaxDev=1), %d requests so far  [%.0fs]' % (len(table), chk.nreq, time.time() - t1))
         keys2 = sorted(k for k in table2 if k not in table)
         if not thorough:
             ctx.rng.shuffle(keys2)
-            keys2 = keys2[:2500]
+            keys2 = keys2[:6000]
         t1 = time.time()
-        n0 = chk.nreq
         for key in keys2:
             op, p, allowed = table2[key]
             chk.run_vector(op, p, allowed, 2 if thorough else 1, 200)
             ctx.cov['replayed_behaviours'] += 1
-            ctx.cov['replayed_steps'] += 2
-        ctx.log('replayed %d vectors (MaxDev=2) with %d requests  [%.0fs]' % (len(keys2), chk.nreq - n0, time.time() - t1))
+            ctx.cov['replayed_steps'] += 3 if thorough else 2
+        ctx.log('replayed %d vectors (MaxDev=2), %d requests so far  [%.0fs]' % (len(keys2), chk.nreq, time.time() - t1))
         some = sorted(table.items())[len(table) // 3]
         ctx.sample({'kind': 'vector enumerated by TLC with the response classes of the spec', 'op': some[1][0],
                     'params': {k: v for k, v in some[1][1].items() if v != 'absent'}, 'allowed': [tla_py(r) for r in some[1][2]][:2]})
 
-        # counterexamples of the defect variants on the real application
-        for dfc in AS_FOUND + HYPOTHETICAL:
-            attack(ctx, chk, dfc, dfc in AS_FOUND)
-
         # (T) code -> spec: random vectors far from the baseline, recorded and validated by TLC
         events = []
-        nrand = 6000 if thorough else 1200
+        nrand = 8000 if thorough else 1500
         ops = sorted(catalogue)
         for i in range(nrand):
             op = ctx.rng.choice(ops)
             p = random_vector(ctx.rng, catalogue, op)
             chk.run_vector(op, p, None, 1, 300 + i, record=events)
-        rt, rejected = validate_traces(ctx, events)
+        results, rejected, obsbad = validate_traces(ctx, events)
         ctx.cov['traces_validated_against_impl'] += len(events)
-        ctx.cov['states'] += rt.distinct
-        ctx.cov['transitions'] += rt.generated
-        ctx.sample({'kind': 'recorded request validated by Trace_Dispatch', 'event': events[0]})
-        for i in rejected[:40]:
+        for rt in results:
+            ctx.cov['states'] += rt.distinct
+            ctx.cov['transitions'] += rt.generated
+        ctx.sample({'kind': 'recorded request validated by Trace_Dispatch', 'event': events[1]})
+        for i in obsbad:
+            e = events[i]
+            if not e['obs']['bad'] and e['obs']['raised'] == 'no':
+                ctx.violation({'invariant': 'ObsOK', 'what': 'observation-violates-property', 'operation': e['op']},
+                              'TLC: the recorded observation violates the property: %s %s -> %s' % (e['op'], e['p'], e['obs']),
+                              {'op': e['op'], 'p': e['p'], 'observed': e['obs'], 'events': [e]})
+        for i in rejected[:60]:
             e = events[i]
             c = e['obs']
-            sig = signature(e['op'], c, None)
+            sig = signature(e['op'], e['p'], c) if c['bad'] else {
+                'invariant': 'conformance', 'what': 'recorded-response-is-no-behaviour-of-the-spec', 'operation': e['op'],
+                'observed': '%s %s %s %s %s' % (c['st'], c['ct'], c['kind'], c['skel'], c['code'])}
             ctx.violation(sig, 'recorded response is not a terminal state of Dispatch.tla for its request: %s %s -> %s %s %s %s %s size=%s echo=%s bad=%s' % (
                 e['op'], {k: v for k, v in e['p'].items() if v != 'absent'}, c['st'], c['ct'], c['kind'], c['skel'], c['code'],
                 c['size'], c['echo'], c['bad']), {'op': e['op'], 'p': e['p'], 'observed': c, 'events': [e]})
-        ctx.log('validated %d recorded requests (%d rejected); %d requests in total' % (len(events), len(rejected), chk.nreq))
+        ctx.log('validated %d recorded requests with TLC (%d rejected, %d violate the property); %d requests in total' % (
+            len(events), len(rejected), len(obsbad), chk.nreq))
     finally:
         chk.close()
     ctx.assumptions += [
@@ -401,6 +434,7 @@ def run(ctx):
         'request text in JavaScript string context of the demo pages is only checked for HTML structure, not for script syntax',
         'the spec is permissive (several response classes) where the outcome depends on data below the class level; the '
         'checks on the observed response itself are strict',
+        'tile caches are filled before the runs (cold/warm tile state is C20); the legend cache state is a request class',
     ]
     return ctx.finish('exploration',
                       'TLC: all request class vectors with at most MaxDev parameters off the baseline for the stated operations '
@@ -412,20 +446,31 @@ def replay(ctx, data):
     case = data.get('case') or {}
     chk = Checker(ctx)
     try:
-        if 'events' in case:
-            r, rejected = validate_traces(ctx, case['events'])
-            print('trace validation:', 'rejected' if rejected else 'accepted')
         op, p = case['op'], case['p']
-        r = model_check(ctx, 'replay', [op], 3 if sum(1 for k in p) else 0, emit=True)
-        table = cases_of(r)
-        allowed = table.get(pkey(op, p), (op, p, None))[2]
+        if 'events' in case:
+            results, rejected, obsbad = validate_traces(ctx, case['events'])
+            print('trace validation of the stored event:', 'rejected' if rejected else 'accepted',
+                  '- observation violates the property' if obsbad else '')
+        catalogue = catalogue_from_tlc(ctx)
+        ndev = sum(1 for k, v in p.items() if catalogue[op][k][0] != v)
+        allowed = None
+        if ndev <= 3:
+            table, _, _ = tables(ctx, 'replay', [op], ndev)
+            allowed = table.get(pkey(op, p), (op, p, None))[2]
         ref = execute(chk.world, op, p, 'benign', 0)
-        o = ref if case.get('mode') == 'benign' else execute(chk.world, op, p, 'hostile', case.get('seed', 1))
-        c = obs_class(o, None if o is ref else ref)
-        print('request :', json.dumps(o['request'])[:600])
-        print('observed:', c, o['problems'], o['markup'], o['leak'])
-        ok = allowed is not None and any(matches(c, a) for a in allowed)
-        print('allowed by Dispatch.tla:', 'yes' if ok else 'no', '' if allowed is not None else '(vector beyond MaxDev=3 of the replay model)')
-        return 0 if ok and not c['bad'] else 1
+        rc = 0
+        seeds = [case.get('seed', 1)] + list(range(9000, 9006))
+        for n, seed in enumerate(seeds):
+            o = ref if case.get('mode') == 'benign' else execute(chk.world, op, p, 'hostile', seed)
+            c = obs_class(o, None if o is ref else ref)
+            ok = allowed is None or any(matches(c, a) for a in allowed)
+            if n == 0 or not ok or c['bad']:
+                print('request :', json.dumps(o['request'])[:500])
+                print('observed:', c, (o['problems'] + o['markup'] + o['leak'])[:3])
+                print('allowed by Dispatch.tla:', 'yes' if ok else 'no', '' if allowed is not None else '(not computed: more than 3 deviations)')
+            if not ok or c['bad']:
+                rc = 1
+                break
+        return rc
     finally:
         chk.close()
